@@ -33,6 +33,23 @@ def gen(rng, tier):
         init = rng.choice([0, 0, 1, 1, 2, 3])
         cases.append({"args": [k, init, gen_script(rng, 5 if quick else 6, 4 if quick else 6)],
                       "env": sched_env(rng, budget=400000)})
+    # unusual scales: initial values around the widths a narrowed local or field would have
+    # (2^7, 2^8, 2^15, 2^16, 2^31), and more simultaneous waiters than 127 / 255
+    BIG = [126, 127, 128, 129, 130, 200, 255, 256, 257, 32767, 32768, 65535, 65536, 65537, (1 << 31) - 3]
+    for _ in range(n_cases(tier, 40, 400)):
+        script = gen_script(rng, 4, 4)
+        init = rng.choice(BIG)
+        # the value must stay representable (assumption of C06: the int counter does not wrap):
+        # the harness's own deadlock-avoiding posts included, leave room for every post
+        init = min(init, (1 << 31) - 1 - 2 * (script.count("p") + script.count("w") + 2))
+        cases.append({"args": [rng.choice([1, 2]), init, script],
+                      "env": sched_env(rng, budget=400000)})
+    for nf in ([130, 260] if quick else [129, 130, 140, 257, 260, 300]):
+        fibers = ["w"] * nf
+        for _ in range(rng.randrange(0, 4)):
+            fibers[rng.randrange(nf)] = rng.choice(["w,p", "t,w", "w,w"])
+        cases.append({"args": [rng.choice([1, 2]), 0, "|".join(fibers)], "timeout": 300,
+                      "env": {"VR_SEED": rng.randrange(1, 1 << 30), "VR_SCHED": "rand", "VR_SWITCH": 4, "VR_BUDGET": 6000000, "VR_MAXEV": 4000000}})
     return cases
 
 
